@@ -108,14 +108,18 @@ def ob_pull(w, P):
     want_exp, want_tag = P.get('expire_time', False), P.get('tag', False)
     fn = c.peek if peek else c.pull
     st, ret = x.call(fn, prefix=P.get('prefix'), side=side, expire_time=want_exp, tag=want_tag)
-    if want_exp and want_tag:
-        (k, v), rexp, rtag = ret
-    elif want_exp:
-        ((k, v), rexp), rtag = ret, None
-    elif want_tag:
-        ((k, v), rtag), rexp = ret, None
-    else:
-        (k, v), rexp, rtag = ret, None, None
+    try:
+        if want_exp and want_tag:
+            (k, v), rexp, rtag = ret
+        elif want_exp:
+            ((k, v), rexp), rtag = ret, None
+        elif want_tag:
+            ((k, v), rtag), rexp = ret, None
+        else:
+            (k, v), rexp, rtag = ret, None, None
+    except (TypeError, ValueError):
+        x.add('C10', 'the result has the documented shape for the requested extras (%r)' % (ret,), False)
+        return x.result()
     T0, T1 = x.T0, x.T1
     items = [it for it in T0.items if it.present is not False]
     tfirst = x.times[0] if x.times else None
@@ -283,6 +287,9 @@ def jobs(tier):
                 add('ob_pull', 'C10,C04', weight=N, N=N, side=side, peek=peek, expire_pos=False)
         add('ob_pull', 'C10,C04,C08', N=N, side='front', peek=False, expire_time=True, tag=True)
         add('ob_pull', 'C10,C04,C08', N=N, side='back', peek=True, expire_time=True)
+        add('ob_pull', 'C10,C04', N=N, side='front', peek=True, tag=True)
+        add('ob_pull', 'C10,C04', N=N, side='back', peek=False, tag=True)
+        add('ob_pull', 'C10,C04', N=N, side='front', peek=True, expire_time=True, tag=True)
     for case in ('push_side', 'push_side_prefix', 'push_expire', 'push_prefix', 'pull_side', 'peek_side', 'set_expire', 'add_expire', 'set_read', 'push_read'):
         add('ob_bad_argument', 'C08,C10,C03', weight=2, N=1, case=case)
     for prefix in PREFIXES:
